@@ -218,7 +218,7 @@ func (e *Env) ident(name string) Val {
 		return v
 	}
 	if e.locals {
-		if a := e.ex.localByName(name); a != nil {
+		if a := e.ex.localByNameAt(name, e.scopePos()); a != nil {
 			t := a.Type().(*types.Pointer).Elem()
 			cst := e.st
 			if e.cellSt != nil {
@@ -274,13 +274,31 @@ func rangeIndexAlloc(li *loopInfo) *ssa.Alloc {
 }
 
 func (ex *Exec) localByName(name string) *ssa.Alloc {
+	return ex.localByNameAt(name, token.NoPos)
+}
+
+// localByNameAt resolves a local variable name as Go's scoping would at position pos (several locals of
+// a function may share a name); without a position, or when the scopes do not know the name there, the
+// first declaration wins.
+func (ex *Exec) localByNameAt(name string, pos token.Pos) *ssa.Alloc {
 	var best *ssa.Alloc
 	if ex.fn == nil {
 		return nil
 	}
+	var want token.Pos
+	if pos.IsValid() && ex.fn.Pkg != nil && ex.fn.Pkg.Pkg != nil {
+		if sc := ex.fn.Pkg.Pkg.Scope().Innermost(pos); sc != nil {
+			if _, obj := sc.LookupParent(name, pos); obj != nil {
+				want = obj.Pos()
+			}
+		}
+	}
 	for _, b := range ex.fn.Blocks {
 		for _, in := range b.Instrs {
 			if a, ok := in.(*ssa.Alloc); ok && a.Comment == name {
+				if want.IsValid() && a.Pos() == want {
+					return a
+				}
 				if best == nil {
 					best = a
 				}
@@ -288,6 +306,31 @@ func (ex *Exec) localByName(name string) *ssa.Alloc {
 		}
 	}
 	return best
+}
+
+// scopePos is the source position whose scope a contract clause is read in: inside the loop for a loop
+// invariant, the end of the function body otherwise.
+func (e *Env) scopePos() token.Pos {
+	if e.ex == nil || e.ex.fn == nil {
+		return token.NoPos
+	}
+	if e.loop != nil {
+		for _, in := range e.loop.header.Instrs {
+			if p := in.Pos(); p.IsValid() {
+				return p
+			}
+		}
+		return token.NoPos
+	}
+	if syn := e.ex.fn.Syntax(); syn != nil {
+		if fd, ok := syn.(*ast.FuncDecl); ok && fd.Body != nil {
+			return fd.Body.Rbrace
+		}
+		if fl, ok := syn.(*ast.FuncLit); ok {
+			return fl.Body.Rbrace
+		}
+	}
+	return token.NoPos
 }
 
 func (e *Env) object(obj types.Object) Val {
@@ -613,6 +656,13 @@ func (e *Env) call(x *ast.CallExpr) Val {
 			ref = sliceArr(v.T)
 		}
 		return Val{T: T(SBool, "(>= %s %s)", ref.S, e.old.alloc.S), Ty: boolT}
+	case "disjoint":
+		// two slices do not share a backing array (a nil slice shares with nothing)
+		a, b := e.eval(x.Args[0]), e.eval(x.Args[1])
+		if a.T.Sort != SSl || b.T.Sort != SSl {
+			panic(e.fail("disjoint() wants two slices"))
+		}
+		return Val{T: Or(Eq(sliceArr(a.T), IntLit("0")), Not(Eq(sliceArr(a.T), sliceArr(b.T)))), Ty: boolT}
 	case "min", "max":
 		a, b := e.eval(x.Args[0]), e.eval(x.Args[1])
 		if a.Const != nil {
